@@ -260,16 +260,16 @@ type c14Pool struct {
 	canCreate int
 
 	// per-call context
-	inRunQueue                                                                 bool
-	firstUnalloc                                                               bool            // late discovery happens at the first Unallocated() of a scenario
-	passKillTrue                                                               map[string]bool // KillContainer(u) returned true during the current runQueue pass
-	lastRunning                                                                map[string]time.Time
-	stepKills                                                                  map[string]bool // KillContainer calls during the current step
-	stepStarts                                                                 []string
-	viols                                                                      []c14Viol
-	evals                                                                      int
-	nStart, nStartOK, nKill, nKillTrue, nCreate, nShutdown, nForget, nDiscover int
-	trace                                                                      []string
+	inRunQueue                                                                            bool
+	firstUnalloc                                                                          bool            // late discovery happens at the first Unallocated() of a scenario
+	passKillTrue                                                                          map[string]bool // KillContainer(u) returned true during the current runQueue pass
+	lastRunning                                                                           map[string]time.Time
+	stepKills                                                                             map[string]bool // KillContainer calls during the current step
+	stepStarts                                                                            []string
+	viols                                                                                 []c14Viol
+	evals                                                                                 int
+	nStart, nStartOK, nKill, nKillTrue, nCreate, nShutdown, nForget, nDiscover, nLateKill int
+	trace                                                                                 []string
 }
 
 func (p *c14Pool) tr(format string, a ...interface{}) {
@@ -523,6 +523,11 @@ func (p *c14Pool) removeProc(uuid string, placeholder bool) bool {
 
 func c14Type(i int) arvados.InstanceType { return test.InstanceType(i) }
 
+// c14Base is the smallest goroutine count ever seen at a quiescent point.
+// (A single reading can be one too high: the runtime's finalizer goroutine
+// is counted by NumGoroutine only while it runs a finalizer.)
+var c14Base = 1 << 30
+
 func c14Settle(base int) bool {
 	deadline := time.Now().Add(20 * time.Second)
 	for i := 0; ; i++ {
@@ -735,7 +740,10 @@ func c14RunScenario(run *verifkit.Run, ctx context.Context, sc c14Scenario, case
 		for _, m := range st.Moves {
 			applyMove(m)
 		}
-		base := runtime.NumGoroutine()
+		if b := runtime.NumGoroutine(); b < c14Base {
+			c14Base = b
+		}
+		base := c14Base
 		p.mu.Lock()
 		p.stepKills = map[string]bool{}
 		p.stepStarts = nil
@@ -787,6 +795,24 @@ func c14RunScenario(run *verifkit.Run, ctx context.Context, sc c14Scenario, case
 				}
 				p.evals++
 				if !p.stepKills[u] {
+					// safety net, never expected to be needed once the
+					// goroutines of the step have ended
+					p.mu.Unlock()
+					for i := 0; i < 50; i++ {
+						time.Sleep(time.Millisecond)
+						p.mu.Lock()
+						late := p.stepKills[u]
+						p.mu.Unlock()
+						if late {
+							break
+						}
+					}
+					p.mu.Lock()
+					if p.stepKills[u] {
+						p.nLateKill++
+					}
+				}
+				if !p.stepKills[u] {
 					p.bad("C14:S4:no-kill:"+expect, fmt.Sprintf("sync() saw %s with a live process (%s) but did not call KillContainer", u, expect))
 				}
 			}
@@ -813,6 +839,9 @@ func c14RunScenario(run *verifkit.Run, ctx context.Context, sc c14Scenario, case
 	run.Count("calls_Cancel", q.nCancel)
 	run.Count("calls_Forget", q.nForget)
 	run.Count("late_discoveries_inside_pass", p.nDiscover)
+	if p.nLateKill > 0 {
+		run.Count("guard_kill_seen_only_after_settle", p.nLateKill)
+	}
 	run.Count("steps", len(sc.Steps))
 	for k := range usedMoves {
 		run.Count("env_"+k, 1)
